@@ -101,6 +101,23 @@ def expressions(quick):
                 out.append((f"bin_of_fn:{f}", f"{f}({a}) {op} {b}" if f != "COALESCE" else f"COALESCE({a}, {b}) {op} {b}"))
     for a, b, c in itertools.product(REPR, repeat=3):
         out.append(("case2", f"CASE WHEN {a} = {a} THEN {b} + {c} ELSE {c} END"))
+    # intervals of every unit, bare / parenthesised / scaled / compound (two units in both orders) / chosen by COALESCE, added to or
+    # subtracted from a date, a timestamp and a string, on either side (the result is a timestamp as soon as a time unit takes part)
+    units = ["YEAR", "MONTH", "WEEK", "DAY", "HOUR", "MINUTE", "SECOND"]
+    kind = lambda u: "dateunit" if u in ("YEAR", "MONTH", "WEEK", "DAY") else "timeunit"
+    ivals = []   # (which units take part, in which order; text)
+    for u in units:
+        ivals += [(kind(u), f"INTERVAL 1 {u}"), (kind(u) + ".paren", f"(INTERVAL 1 {u})"), (kind(u) + ".scaled", f"INTERVAL 2 {u} * 2"), (kind(u) + ".str", f"INTERVAL '1' {u}")]
+    for u1, u2 in itertools.permutations(["MONTH", "DAY", "HOUR", "SECOND"], 2):
+        k = f"{kind(u1)}+{kind(u2)}"
+        ivals += [(k + ".sum", f"(INTERVAL 1 {u1} + INTERVAL 1 {u2})"), (k + ".diff", f"(INTERVAL 1 {u1} - INTERVAL 30 {u2})"), (k + ".coalesce", f"COALESCE(INTERVAL 1 {u1}, INTERVAL 1 {u2})")]
+    for k, iv in ivals:
+        for a in ("c_dt", "c_ts", "c_s", "DATE '2020-01-01'"):
+            out.append((f"interval:plus:{k}", f"{a} + {iv}"))
+            out.append((f"interval:minus:{k}", f"{a} - {iv}"))
+            out.append((f"interval:plus_left:{k}", f"{iv} + {a}"))
+        out.append((f"interval:agg:{k}", f"MIN(c_dt + {iv})"))
+        out.append((f"interval:self:{k}", f"{iv} + {iv}"))
     seen, res = set(), []
     for tag, e in out:
         if e not in seen:
